@@ -9,7 +9,7 @@ PROP = {
          "plain": ["TestVFC18Regress"]},
         {"name": "services", "pkg": "internal/dnsforward",
          "files": ["dnsforward/common_world_test.go", "dnsforward/c01_test.go", "dnsforward/c18_services_test.go"],
-         "tests": [("TestVFC18ServicesPause", (400, 1500))], "shards": (2, 16)},
+         "tests": [("TestVFC18ServicesPause", (400, 1500)), ("TestVFC18UpdateVsRequests", (20, 60))], "shards": (2, 16)},
         # the schedule of a persistent client across the configuration file and a restart
         {"name": "home_clients", "pkg": "internal/home", "files": ["home/c18_clients_test.go"],
          "tests": [("TestVFC18ClientScheduleRestart", (300, 1500))], "shards": (2, 8)},
